@@ -197,9 +197,10 @@ class LedgerOracle(Oracle):
     def __call__(self, run, i, op, exc):
         if self.ledger is None:
             self.ledger = [list(st["vols"]) for st in run.init_state["labs"]]
-        if op["op"] not in ("add", "remove"):
+        if op["op"] not in ("add", "remove", "aspirate", "dispense"):
             self.ledger = [[q(v) for v in L.volumes.flatten()] for L in run.labs]
             return
+        adding = op["op"] in ("add", "dispense")      # worklist aspirate / dispense book the same per-well steps
         li = op["lab"]
         spec = [s for s, r in zip(self.prog["labs"], run.lab_results) if r is None][li]
         wells = flatF(op["wells"])
@@ -218,7 +219,7 @@ class LedgerOracle(Oracle):
                     self.fail("C04:accepted-unknown-well", f"op {i} ({op['op']}): {spec['name']} accepted the call although it names well {w!r}, which the labware does not have", i)
                     self.ledger[li] = cur
                     return
-                self.ledger[li][wi] += (v if op["op"] == "add" else -v)
+                self.ledger[li][wi] += (v if adding else -v)
             if cur != self.ledger[li]:
                 bad = [k for k in range(len(cur)) if cur[k] != self.ledger[li][k]]
                 self.fail(f"C04:ledger-mismatch:{op['op']}", f"op {i} ({op['op']}): {spec['name']} wells {bad[:5]}: tracked {[float(cur[k]) for k in bad[:5]]} vs ledger {[float(self.ledger[li][k]) for k in bad[:5]]}", i)
@@ -236,7 +237,7 @@ class LedgerOracle(Oracle):
                             wi = self.well_index(spec, w)
                         except (KeyError, ValueError, IndexError):
                             break
-                        led[wi] += (v if op["op"] == "add" else -v)
+                        led[wi] += (v if adding else -v)
                         if cur == led:
                             ok_prefix = True
                             break
